@@ -493,6 +493,12 @@ impl Substream {
             "send framed"
         );
 
+        // Frames queued through the `Sink` interface go out first: both send paths write to the
+        // same byte stream and must not interleave or overtake each other.
+        if self.pending_out_frame.is_some() || !self.pending_out_frames.is_empty() {
+            futures::SinkExt::<Bytes>::flush(&mut *self).await?;
+        }
+
         match &mut self.substream {
             #[cfg(test)]
             SubstreamType::Mock(ref mut substream) =>
